@@ -185,6 +185,7 @@ type Run struct {
 	clients           int
 	finished          int
 	maxQueue          int
+	postPhase         bool // the run is over: only the recorded history is examined
 	qcap              int
 	queueOffset       int
 	queueSeries       []queuePoint
@@ -319,7 +320,32 @@ func (r *Run) fresh(stamps [4]uint64) *freshRes {
 		res.fp = render(res.cfg)
 		res.valid = valid(res.cfg)
 	}()
+	r.modelCheck(stamps, res)
 	return res
+}
+
+// modelCheck: the library's fresh stack of these values against the harness's
+// own reference model of stacking (model.go).
+func (r *Run) modelCheck(stamps [4]uint64, res *freshRes) {
+	if r.postPhase {
+		return
+	}
+	var parts []*Part
+	for i := range r.sc.Sources {
+		parts = append(parts, r.parts[stamps[i]])
+	}
+	mc, merr := modelStack(&r.sc.Defaults, parts)
+	r.probe("fresh-stack-checked-against-the-reference-model")
+	switch {
+	case merr != nil && res.err == nil:
+		r.fail("C05.model", "a fresh Config over the values %v succeeded although one of them cannot be assigned to its field (the stack must fail): %s", stamps, res.fp)
+	case merr == nil && res.err != nil:
+		r.fail("C05.model", "a fresh Config over the values %v failed (%v), the reference model stacks them to %s", stamps, res.err, render(mc))
+	case merr == nil:
+		if m := render(mc); m != res.fp {
+			r.fail("C05.model", "a fresh Config over the values %v differs from the reference model of stacking\n library: %s\n model:   %s", stamps, res.fp, m)
+		}
+	}
 }
 
 // ---- observation at step boundaries ----
